@@ -599,16 +599,79 @@ def run(ck):
             if res != "IOError(19)":
                 ck.fail("closed-frontend:" + name, "%s on a closed frontend: %s (documented IOError ENODEV)" % (name, res), {"entry": name})
 
+    # ---------------------------------------------------------------- the REAL LogicalLinkController over several rounds
+    # LogicalLinkController.activate and run_as_initiator/run_as_target are the real ones, only the NFC-DEP MAC is
+    # scripted: ONE controller lives through many rounds of the connect() loop (success, peer leaves, failing activations)
+    n_real = 0
+    with cw.installed_real_llc(nfc, world) as new_clf:
+        def found(k):
+            return "F.4400.-.0.%d" % k
+        scripts = [
+            ("i", 2, 1, [found(1), "0", "0", "0", "0"]),            # success, peer leaves, on-release false, then nobody there
+            ("-", 2, 0, [found(0), "0", "0", "0", found(2), "0", "0"]),
+            ("t", 2, 5, [found(2), "0", "0", found(0), "0"]),
+            ("i", 1, 2, ["0", found(1), "0"]),
+        ]
+        for _ in range(400 if ck.thorough else 60):
+            scripts.append((rng.choice(["-", "-", "t", "i"]), rng.choice([2, 2, 2, 4, 6, 1, 0]), rng.choice([1, 0, 3, 5, 2, 6]),
+                            [found(rng.choice([0, 0, 1, 2, 3])) if rng.random() < 0.4 else ("i" if rng.random() < 0.04 else "0")
+                             for _ in range(rng.randrange(1, 9))]))
+        for role, co, re_, script in scripts:
+            spec = cw.ConnSpec(llcp={"su": 0, "co": co, "re": re_, "role": role})
+            env_model = []
+            for tok in script:
+                env_model.append(tok)
+                if tok.startswith("F."):
+                    env_model.append("p%d" % (int(tok.rsplit(".", 1)[1]) + 1))
+            base = [False] * (24 if ck.thorough else 12)
+            _, _, _, w0 = run_connect(nfc, cw, world, new_clf, spec, script, base)
+            polls = sum(1 for x in w0.log if x in ("t0", "t1"))
+            ks = list(range(0, min(polls, len(base)) + 1))
+            if not ck.thorough and len(ks) > 5:
+                ks = sorted(set(ks[:2] + ks[-1:] + rng.sample(ks, 2)))
+            for k in ks:
+                ts = [False] * k
+                line, txt, r, w = run_connect(nfc, cw, world, new_clf, spec, script, ts)
+                n_real += 1
+                real_line = line
+                req = "connect %s %s %s" % (spec.token(), "".join("0" for _ in ts) or "-", ",".join(env_model) or "-")
+                reqs.append((req, real_line, "real-llc"))
+                replay = {"scenario": "real LogicalLinkController.activate/run on a scripted NFC-DEP MAC", "role": role,
+                          "on-connect": co, "on-release": re_, "activation script": script, "terminate": len(ts),
+                          "impl": line, "link exchanges": len(w.link)}
+                ck.case(("real-llc", role, co, re_, tuple(script), k), any(ok for _, ok in w.activations),
+                        "real-llc:" + (txt if not txt.startswith("ok val") else "ok release-value"),
+                        sample=replay if n_real == 3 else None)
+                # on-connect only (and directly) after an activation that really succeeded
+                succ = {pos for pos, ok in w.activations if ok}
+                for i, tok in enumerate(w.log):
+                    if tok.startswith("cb:llcp:connect"):
+                        if i - 1 not in succ:
+                            ck.fail("on-connect-without-activation",
+                                    "on-connect ran although the preceding link activation failed (log ...%s)"
+                                    % " ".join(w.log[max(0, i - 4):i + 1]), replay)
+                if not txt.startswith("exc") and r is not False:
+                    # every successful activation is reported to on-connect
+                    if any(not (pos + 1 < len(w.log) and w.log[pos + 1].startswith("cb:llcp:connect")) for pos in succ):
+                        ck.fail("activation-without-on-connect", "a successful link activation was not reported to on-connect", replay)
+                oracle_connect(ck, cw, spec, script, ts, txt, r, w, replay)
+    ck.count("real-llc runs", n_real)
+
     # ---------------------------------------------------------------- compare with the model
     replies = model.ask_many([r[0] for r in reqs])
-    dis = {"history": 0, "connect": 0}
-    n = {"history": 0, "connect": 0}
+    dis = {"history": 0, "connect": 0, "real-llc": 0}
+    n = {"history": 0, "connect": 0, "real-llc": 0}
     for (req, real, kind), rep in zip(reqs, replies):
         n[kind] += 1
-        want = strip_defaults(rep) if kind == "connect" else rep
+        want = strip_defaults(rep) if kind != "history" else rep
+        if kind == "real-llc":
+            a_, _, b_ = want.rpartition(" | ")
+            want = (" ".join(x for x in a_.split(" ") if x != "run") or "-") + " | " + b_
         if want != real:
             dis[kind] += 1
             ck.fail("tie:c18-%s-model-vs-frontend" % kind, "model %r, implementation %r" % (want, real),
                     {"request": req, "model": rep, "impl": real})
     ck.tie("sense/listen/exchange histories: model vs ContactlessFrontend", cases=n["history"], disagreements=dis["history"])
     ck.tie("connect(): model vs ContactlessFrontend", cases=n["connect"], disagreements=dis["connect"])
+    ck.tie("connect(llcp) on the real LogicalLinkController (scripted NFC-DEP MAC): model vs implementation",
+           cases=n["real-llc"], disagreements=dis["real-llc"])
